@@ -18,6 +18,7 @@
     (17 sched)       synchronous read while the value's task holds the write lock (in the Drop of the old value)   ((st v) final hang)
     (18 kind sched)  await vs a user's write guard on the async derived value, HEAD   ((st v polls) writer_done hang)
     (28 kind sched)  the same before the fix
+    (23 progs sched) = (3 ..) driven through arena handles (RwSignal, Memo)
     (7 sched)        signal read vs write holding the lock      ((reader_status value) writer_status final_s)
     status: 0 = waiting at a yield point / parked, 1 = finished, 2 = blocked on a lock, 3 = panicked *)
 From Coq Require Import List ZArith NArith Bool Arith.
@@ -112,6 +113,8 @@ Definition run_C19 (c : sexp) : sexp :=
                           (as_nats (nth_s 3 c)))
   | 3%Z => obs_sig (mrun (minit (map (fun p => map as_op (as_list p)) (as_list (nth_s 1 c))))
                          (as_nats (nth_s 2 c)))
+  | 23%Z => obs_sig (mrun (minit (map (fun p => map as_op (as_list p)) (as_list (nth_s 1 c))))
+                          (as_nats (nth_s 2 c)))
   | 4%Z => obs_glitch (grun (ginit (as_Zs (nth_s 1 c))) (as_nats (nth_s 2 c)))
   | 5%Z => obs_lock (lrun_coarse (linit [e_rerun_sd; d_complete]) (as_nats (nth_s 2 c)))
   | 6%Z => obs_lock (lrun_coarse (linit [e_rerun_sd; d_complete_prefix]) (as_nats (nth_s 2 c)))
